@@ -22,7 +22,26 @@ DEPTHS = {"quick": list(range(0, 65)) + [999, 1000, 1001, 10 ** 4, 5 * 10 ** 4],
 CATS = CATS + ["deep-recursion", "deep-failed", "deep-value", "deep-flushes"]
 
 
+# hand-written multi-stage programs: several "idle passes" (a pass of the wait loop that ends with the root blocked and
+# nothing to flush, because a sibling flushed the batch out of band) within ONE computation
+def _t(*st):
+    return ("t", tuple(st))
+
+
+_IA, _IB = gen.IA, gen.IB
+STAGED = [
+    ("P", _t(*[("y", ("L", (("c", _t(("y", _IA))), ("c", _t(("iv", "a"))))))] * n), (), ()) for n in (2, 3, 4)
+] + [
+    ("P", _t(("y", ("L", (("c", _t(("y", _IA))), ("c", _t(("iv", "a")))))),
+             ("y", ("L", (("c", _t(("y", _IB))), ("c", _t(("sync", _t(("y", _IB)), "call"))))))), (), ()),
+    ("P", _t(("y", ("L", (("c", _t(("y", _IA), ("y", _IA))), ("c", _t(("y", _IA), ("iv", "a"))), ("c", _t(("iv", "a"))))))), (), ()),
+]
+
+
 def jobs(tier, seed):
+    j = {"bases": STAGED, "menu": [], "k": 0, "convs": ["call", "av"], "cats": CATS}
+    j.update(SPEC)
+    yield j
     # width: one yield of n futures (list and tuple), around the 16-bit and beyond
     for shape in ("fan-list", "fan-tuple"):
         for n in (70000, 65537, 65536, 32769, 32768, 32767, 1000, 3, 0):
